@@ -27,7 +27,7 @@ func c10Gen(rng *rand.Rand, tier string) []Case {
 	}
 	n := 420
 	if tier == "thorough" {
-		n = 42000
+		n = 8000
 	}
 	for i := 0; i < n; i++ {
 		o := snapGenOpts{maxEvents: 40}
